@@ -3,7 +3,7 @@
    check_case: the model computes the reply the implementation sent.
    spec_case : the reply the implementation sent satisfies the property's
                statement, judged on (query, observed reply) alone. *)
-From Sdns Require Export Common.Base Gen.C06 C06.Model.
+From Sdns Require Export Common.Base Common.GoList Gen.C06 C06.Model C06.WireOpt.
 Open Scope N_scope.
 
 (* ---- decidable equality on abstract messages ---- *)
@@ -191,7 +191,14 @@ Inductive case :=
 | CaseChain (tr : transport) (c : cfg) (nt : ntab) (q : msg) (strict : bool) (dn : option msg) (clen : N) (obs : option msg)
             (rlen oulen oclen : N)
   (* the same input judged without the clauses a KNOWN finding breaks (unused since fb9758c) *)
-| CaseRelax (rx : N) (c : case).
+| CaseRelax (rx : N) (c : case)
+  (* a case together with octets of the packets themselves: [pkt] = the first (at most 12) octets of
+     the query packet on a datagram / stream listener ([] elsewhere) — the translated
+     wire.ParseHeader must produce the header the case carries, and fewer than 12 octets must be met
+     with silence; [tail] = the octets of the reply's OPT when it is the reply's last record ([]
+     otherwise) — they must be the wire form of the abstract OPT (WireOpt.enc_opt), and on the byte
+     path exactly what the translated internal/wire builders produce (WireOpt.wire_opt_octets) *)
+| CaseBytes (pkt tail : list N) (c : case).
 
 (* the model's two length computations agree with the library's on the observed reply, and the
    lengths the records carry agree with the name table *)
@@ -201,6 +208,49 @@ Definition lens_ok (nt : ntab) (obs : option msg) (oulen oclen : N) : bool :=
   | None => true
   end.
 Definition omsg_wf (nt : ntab) (m : option msg) : bool := match m with Some x => msg_wf nt x | None => true end.
+
+Definition theader_eqb (a b : T_Header) : bool :=
+  (T_Header_ID a =? T_Header_ID b) && (T_Header_Flags a =? T_Header_Flags b) && (T_Header_QDCount a =? T_Header_QDCount b)
+  && (T_Header_ANCount a =? T_Header_ANCount b) && (T_Header_NSCount a =? T_Header_NSCount b)
+  && (T_Header_ARCount a =? T_Header_ARCount b).
+Definition case_hdr (x : case) : option T_Header :=
+  match x with
+  | CaseRaw _ _ _ h _ _ _ _ _ _ _ _ => Some h
+  | CaseWire _ _ _ h _ _ _ _ _ _ _ _ _ _ _ => Some h
+  | _ => None
+  end.
+Definition case_obs (x : case) : option msg :=
+  match x with
+  | CaseRaw _ _ _ _ _ _ _ _ obs _ _ _ => obs
+  | CaseWire _ _ _ _ _ _ _ _ _ _ _ obs _ _ _ => obs
+  | CaseMsg _ _ _ _ _ _ obs _ _ _ => obs
+  | CaseChain _ _ _ _ _ _ _ obs _ _ _ => obs
+  | _ => None
+  end.
+Definition bytes_eqb (a b : list N) : bool := list_eqb N.eqb a b.
+(* the reply's last record is an OPT and [tail] is its wire form *)
+Definition tail_ok (tail : list N) (x : case) : bool :=
+  match tail with
+  | [] => true
+  | _ => match case_obs x with
+         | Some r => match last (map Some (m_ex r)) None with
+                     | Some (XO o) => bytes_eqb (enc_opt (h_rcode (m_hdr r) / 16) o) tail
+                     | _ => false
+                     end
+         | None => false
+         end
+  end.
+(* byte path taken (WriteWire accepted the body): the translated builders' octets are the tail *)
+Definition wire_octets_ok (tail : list N) (x : case) : bool :=
+  match x with
+  | CaseWire tr c _ h (Some q) strict (Some d) hasd ede blen _ (Some _) _ _ _ =>
+      let w := mk_wstate tr strict q (set_edns0 c q) in
+      match write_wire tr c w (clear_opt d) hasd ede blen with
+      | Some _ => w_noedns w || bytes_eqb (wire_opt_octets c w ede) tail
+      | None => true
+      end
+  | _ => true
+  end.
 
 Fixpoint check_case (x : case) : bool :=
   match x with
@@ -215,15 +265,29 @@ Fixpoint check_case (x : case) : bool :=
       omsg_eqb (option_map (transport_write tr) (edns_serve_c nt tr c q strict dn)) obs
       && lens_ok nt obs oulen oclen && omsg_wf nt dn
   | CaseRelax _ y => check_case y
+  | CaseBytes pkt tail y =>
+      match pkt with
+      | [] => check_case y && tail_ok tail y && wire_octets_ok tail y
+      | _ => match parse_pkt pkt with
+             | None => is_none (case_obs y)
+             | Some h => match case_hdr y with Some h' => theader_eqb h h' | None => false end
+                         && check_case y && tail_ok tail y && wire_octets_ok tail y
+             end
+      end
   end.
 
-Definition spec_top (rx : N) (x : case) : bool :=
+Fixpoint spec_top (rx : N) (x : case) : bool :=
   match x with
   | CaseRaw tr c _ h body _ _ _ obs rlen _ _ => spec_raw rx tr c h body obs rlen
   | CaseWire tr c _ h body _ _ _ _ _ _ obs rlen _ _ => spec_raw rx tr c h body obs rlen
   | CaseMsg tr c _ q _ _ obs rlen _ _ => spec_msg rx tr c q obs rlen
   | CaseChain tr c _ q _ _ _ obs rlen _ _ => negb (length (m_q q) =? 1)%nat || spec_msg rx tr c q obs rlen
   | CaseRelax _ _ => true
+    (* fewer than 12 octets: no header to answer to — the statement is silent, so is the server *)
+  | CaseBytes pkt _ y => match pkt, parse_pkt pkt with
+                         | _ :: _, None => is_none (case_obs y)
+                         | _, _ => spec_top rx y
+                         end
   end.
 
 Definition spec_case (x : case) : bool :=
